@@ -48,12 +48,21 @@ pub struct Case {
     /// 2 Vec chained with a filtered iterator (lower size hint < n), 3 map_while iterator
     #[serde(default)]
     pub iter_kind: u8,
+    /// pairs of inputs whose initial distance is infinite (methods 0-2; JSON has no infinite numbers)
+    #[serde(default)]
+    pub inf_pairs: Vec<(u16, u16)>,
+    /// content-based distance (method 3): that many of 256 hash classes are infinitely far apart
+    #[serde(default)]
+    pub inf_rate: u8,
+    /// the infinite distances are -inf instead of +inf (never both: their mean would be NaN)
+    #[serde(default)]
+    pub inf_neg: bool,
 }
 
 const METHODS: [&str; 4] = ["single", "complete", "average", "union"];
 
 /// symmetric pseudo-random distance of two sets, a function of their contents only
-fn content_distance(seed: u64, shift: f32, a: &BTreeSet<u32>, b: &BTreeSet<u32>) -> f32 {
+fn content_distance(seed: u64, shift: f32, inf: (u8, bool), a: &BTreeSet<u32>, b: &BTreeSet<u32>) -> f32 {
     let h = |s: &BTreeSet<u32>| {
         let mut f = Fnv::new();
         f.u64(seed);
@@ -67,8 +76,12 @@ fn content_distance(seed: u64, shift: f32, a: &BTreeSet<u32>, b: &BTreeSet<u32>)
     let mut f = Fnv::new();
     f.u64(lo);
     f.u64(hi);
+    let h = f.finish();
+    if ((h & 0xff) as u8) < inf.0 {
+        return if inf.1 { f32::NEG_INFINITY } else { f32::INFINITY };
+    }
     // 24 bit mantissa: exactly representable, distinct with high probability
-    ((f.finish() >> 40) as f32 + 1.0) / 16_777_216.0 - shift
+    ((h >> 40) as f32 + 1.0) / 16_777_216.0 - shift
 }
 
 pub fn check(c: &Case, stats: &mut Stats) -> CheckResult {
@@ -86,9 +99,19 @@ pub fn check(c: &Case, stats: &mut Stats) -> CheckResult {
     let mname = METHODS[method as usize];
     // log of every callback invocation: the pairs (content a, content b) it was asked for
     let log: RefCell<Vec<Vec<(BTreeSet<u32>, BTreeSet<u32>)>>> = RefCell::new(Vec::new());
-    let table = &c.table;
+    let mut table = c.table.clone();
+    let inf_value = if c.inf_neg { f32::NEG_INFINITY } else { f32::INFINITY };
+    for (i, j) in &c.inf_pairs {
+        let (i, j) = (*i as usize % n, *j as usize % n);
+        if i != j {
+            table[i * n + j] = inf_value;
+            table[j * n + i] = inf_value;
+        }
+    }
+    let table = &table;
     let seed = c.seed;
     let shift = c.shift;
+    let inf = (c.inf_rate, c.inf_neg);
     let distance = |combs: Combinations<HpoSet<'_>>| -> Vec<f32> {
         let mut asked = Vec::new();
         let mut out = Vec::new();
@@ -96,7 +119,7 @@ pub fn check(c: &Case, stats: &mut Stats) -> CheckResult {
             let ca: BTreeSet<u32> = a.iter().map(|t| t.id().as_u32()).collect();
             let cb: BTreeSet<u32> = b.iter().map(|t| t.id().as_u32()).collect();
             let d = if method == 3 {
-                content_distance(seed, shift, &ca, &cb)
+                content_distance(seed, shift, inf, &ca, &cb)
             } else {
                 match (by_content.get(&ca), by_content.get(&cb)) {
                     (Some(i), Some(j)) => table[i * n + j],
@@ -162,7 +185,7 @@ pub fn check(c: &Case, stats: &mut Stats) -> CheckResult {
     let mut dist: BTreeMap<(usize, usize), f32> = BTreeMap::new();
     for i in 0..n {
         for j in i + 1..n {
-            let d = if method == 3 { content_distance(seed, shift, &contents[i], &contents[j]) } else { table[i * n + j] };
+            let d = if method == 3 { content_distance(seed, shift, inf, &contents[i], &contents[j]) } else { table[i * n + j] };
             dist.insert((i, j), d);
         }
     }
@@ -199,7 +222,7 @@ pub fn check(c: &Case, stats: &mut Stats) -> CheckResult {
                     if d1 > d2 { d1 } else { d2 }
                 }
                 2 => (d1 + d2) / 2.0,
-                _ => content_distance(seed, shift, &merged, &content[x]),
+                _ => content_distance(seed, shift, inf, &merged, &content[x]),
             };
             dist.insert(key(*x, new), nd);
         }
@@ -238,6 +261,12 @@ pub fn check(c: &Case, stats: &mut Stats) -> CheckResult {
     } else if neg > 0 {
         stats.label("mixed-sign-distances");
     }
+    if clusters.iter().any(|c| c.2.is_infinite()) {
+        stats.label("infinite-distance");
+        if clusters.iter().all(|c| c.2.is_infinite()) {
+            stats.label("all-distances-infinite");
+        }
+    }
     if tie_seen {
         stats.label("tie");
     }
@@ -257,8 +286,8 @@ pub fn check(c: &Case, stats: &mut Stats) -> CheckResult {
 
 fn strategy(tier: Tier) -> BoxedStrategy<Case> {
     let max = if tier == Tier::Quick { 24usize } else { 40 };
-    (2..=max, 0u8..4, vec(any::<u16>(), NT as usize), vec(0u8..8, 40), vec(any::<u32>(), 40 * 40), any::<u64>(), proptest::bool::weighted(0.15), 0u8..4, 0u8..4)
-        .prop_map(|(n, method, keys, extra, raw, seed, coarse, sign, iter_kind)| {
+    (2..=max, 0u8..4, vec(any::<u16>(), NT as usize), vec(0u8..8, 40), vec(any::<u32>(), 40 * 40), any::<u64>(), proptest::bool::weighted(0.15), 0u8..4, 0u8..4, (0u8..10, vec((any::<u16>(), any::<u16>()), 1..6), any::<bool>()))
+        .prop_map(|(n, method, keys, extra, raw, seed, coarse, sign, iter_kind, (inf_sel, inf_raw, inf_neg))| {
             // a random partition of a prefix of the 96 terms into n non-empty sets
             let mut order: Vec<(u16, u32)> = keys.iter().enumerate().map(|(i, k)| (*k, i as u32 + 1)).collect();
             order.sort();
@@ -306,7 +335,14 @@ fn strategy(tier: Tier) -> BoxedStrategy<Case> {
                 }
             }
             let shift = [0.0f32, 0.5, 2.0, 0.25][sign as usize];
-            Case { method, sets, table, seed, shift, iter_kind }
+            // one case in five has infinitely distant pairs: a few, or (n <= 6) all of them
+            let (inf_pairs, inf_rate) = match inf_sel {
+                0 => (inf_raw.iter().map(|(a, b)| (a % n as u16, b % n as u16)).collect(), 24),
+                1 if n <= 6 => ((0..n as u16).flat_map(|i| (0..i).map(move |j| (j, i))).collect(), 255),
+                1 => (inf_raw.iter().take(1).map(|(a, b)| (a % n as u16, b % n as u16)).collect(), 8),
+                _ => (vec![], 0),
+            };
+            Case { method, sets, table, seed, shift, iter_kind, inf_pairs, inf_rate, inf_neg: inf_neg && inf_sel < 2 }
         })
         .boxed()
 }
@@ -316,7 +352,7 @@ impl Property for C17 {
         "C17"
     }
     fn rule(&self) -> String {
-        "Generated: n in 2..=24 (thorough 40) pairwise disjoint input sets (mostly singletons, some with 2-3 terms, in one case of ten one input is the empty set) over a flat 96-term ontology, handed over as a Vec or as iterators without an exact size hint (filter, chain, map_while); for single/complete/average a generated symmetric table of initial distances (distinct values, or few values so that ties are frequent; shifted so that distances are all positive, mixed-sign, all negative or touch zero); for union a symmetric pseudo-random distance that is a function of the two sets' contents, so merged sets get fresh values. Oracle = validity predicate simulated along the library's own merge choices (ties admit several dendrograms): exactly n-1 merges; each merge joins two live, different clusters (inputs or earlier merges n+k), so every input and intermediate cluster is merged exactly once and one cluster remains; the reported distance equals the pair's current distance bit for bit and no live pair is strictly closer; distances to the new cluster follow the method (min / max / mean of the two parts in f32 / content function of the union); len adds up and is n at the last merge; indicies() is a permutation of 0..n; cluster(), iter(), &linkage and into_cluster() agree; the first callback invocation asks every unordered pair of inputs exactly once (later invocations, which also pair the new set with itself, are not constrained). evaluations = clusterings. Non-trivial = n >= 4 and some merge joins two earlier clusters; distinct by hash of the case.".into()
+        "Generated: n in 2..=24 (thorough 40) pairwise disjoint input sets (mostly singletons, some with 2-3 terms, in one case of ten one input is the empty set) over a flat 96-term ontology, handed over as a Vec or as iterators without an exact size hint (filter, chain, map_while); for single/complete/average a generated symmetric table of initial distances (distinct values, or few values so that ties are frequent; shifted so that distances are all positive, mixed-sign, all negative or touch zero; in one case of five some pairs - for n <= 6 sometimes all - are infinitely far apart, +inf or -inf but never both); for union a symmetric pseudo-random distance that is a function of the two sets' contents, so merged sets get fresh values. Oracle = validity predicate simulated along the library's own merge choices (ties admit several dendrograms): exactly n-1 merges; each merge joins two live, different clusters (inputs or earlier merges n+k), so every input and intermediate cluster is merged exactly once and one cluster remains; the reported distance equals the pair's current distance bit for bit and no live pair is strictly closer; distances to the new cluster follow the method (min / max / mean of the two parts in f32 / content function of the union); len adds up and is n at the last merge; indicies() is a permutation of 0..n; cluster(), iter(), &linkage and into_cluster() agree; the first callback invocation asks every unordered pair of inputs exactly once (later invocations, which also pair the new set with itself, are not constrained). evaluations = clusterings. Non-trivial = n >= 4 and some merge joins two earlier clusters; distinct by hash of the case.".into()
     }
     fn assumptions(&self) -> Vec<String> {
         vec![
@@ -331,7 +367,7 @@ impl Property for C17 {
         }
     }
     fn required_labels(&self, _tier: Tier) -> Vec<&'static str> {
-        vec!["nontrivial", "single", "complete", "average", "union", "tie", "multi-term-inputs", "empty-input-set", "input-iterator-without-exact-size", "all-merge-distances-negative", "mixed-sign-distances"]
+        vec!["nontrivial", "single", "complete", "average", "union", "tie", "multi-term-inputs", "empty-input-set", "input-iterator-without-exact-size", "all-merge-distances-negative", "mixed-sign-distances", "infinite-distance", "all-distances-infinite"]
     }
     fn run_generated(&self, tier: Tier, seed: u64, n: u64, stats: &mut Stats) -> Option<(Value, Failure)> {
         run_typed(strategy(tier), seed, n, stats, check)
